@@ -2279,13 +2279,19 @@ class ResetIndex(Elemwise):
                     # potential improvement is tiny
                     return
                 col = parent.operand("columns")
-                if col in (self.name, "index", self.frame._meta.index.name):
+                # pandas chooses the label of the former index ("index",
+                # "level_0", its name), the other column holds the values
+                if list(self._meta.columns[1:]) != [col]:
                     return
                 if all(
                     isinstance(d(), Projection) and d().operand("columns") == col
                     for d in dependents[self._name]
                 ):
-                    return type(self)(self.frame, True, self.name)
+                    result = type(self)(self.frame, True, self.name)
+                    if result._meta.name != col:
+                        # an unnamed Series ends up in column 0
+                        result = RenameSeries(result, col)
+                    return result
                 return
             result = plain_column_projection(self, parent, dependents)
             if result is not None and not set(result.columns) == set(
